@@ -138,13 +138,17 @@ Fixpoint select {A} (mask : list bool) (l : list A) : list A :=
   match mask, l with b :: m, x :: r => if b then x :: select m r else select m r | _, _ => [] end.
 Definition count_true (l : list bool) : nat := length (filter (fun b => b) l).
 
-(* the HACK block: when more observations satisfy the thresholds than the space has dimensions, lower := satisfiers,
-   greater := violators, gamma := sum(violations) / len(violations); otherwise the constructor's split is kept *)
+(* the HACK block: when some observation violates a threshold AND more observations satisfy the thresholds than the space
+   has dimensions, lower := satisfiers, greater := violators, gamma := sum(violations) / len(violations); otherwise - too few
+   satisfiers, or no violator at all (the forced split would leave an empty greater set and gamma = 0) - the constructor's
+   split is kept.
+     if sum(metric_constraints_violations) > 0 and observation_count - sum(metric_constraints_violations) > dim: *)
+Definition search_forced (dim n nv : nat) : bool := Nat.ltb 0 nv && Nat.ltb dim (n - nv).
 Definition search_split {A} (dim : nat) (pts : list A) (viol : list bool) (dflt : list A * list A * Q)
   : list A * list A * Q :=
   let n := length pts in
   let nv := count_true viol in
-  if Nat.ltb dim (n - nv)
+  if search_forced dim n nv
   then (select (map negb viol) pts, select viol pts, inject_Z (Z.of_nat nv) / inject_Z (Z.of_nat (length viol)))
   else dflt.
 
